@@ -464,7 +464,7 @@ fn ob_c04_mpmc_count_receivers_close() { count_receivers(false); }
 #[kani::unwind(6)]
 fn ob_c04_mpmc_closed_value_sender() { closed_value_sender(); }
 
-// @obligation id=c04.mpmc.closed_value.AsyncSender props=C04,C01 kind=hist tier=quick bound="bounded(1) empty, receiver_count set to 0; payloads any u8; try_send, try_send_batch, try_send_batch_mut, send (polled once) of an open AsyncSender"
+// @obligation id=c04.mpmc.closed_value.AsyncSender props=C04,C01 kind=hist tier=thorough bound="bounded(1) empty, receiver_count set to 0; payloads any u8; try_send, try_send_batch, try_send_batch_mut, send (polled once) of an open AsyncSender"
 #[kani::proof]
 #[kani::stub(std::thread::current::current, crate::verif_k_stubs::stub_thread_current)]
 #[kani::stub(parking_lot::RawMutex::lock_slow, crate::verif_k_stubs::stub_lock_slow)]
